@@ -444,6 +444,10 @@ func (r *runner) job(slot int, block bool) func() {
 			r.waitFor(func() bool { return box.Load() != 0 })
 		}
 		id := int(box.Load())
+		// cron.go logs "run" after startJob: the job may begin before its launch is recorded
+		if r.begun+1 > r.launched {
+			r.waitFor(func() bool { return r.begun+1 <= r.launched || r.broken != "" })
+		}
 		inv := &invocation{id: id, stamp: stamp, launchNo: r.begun, release: make(chan struct{}), blocked: block}
 		r.invs = append(r.invs, inv)
 		r.begun++
